@@ -96,6 +96,8 @@ func c13Gen(c *vfCtx, emit func(c13Case)) {
 	pairs(texts(c13Seqs([]string{"+ x", "  x", "@@ -1 +1 @@", "at f:1"}, 2), true), []bool{false})
 	pairs(texts(c13Seqs([]string{"87%", "%20r", "%%", "%!d(MISSING)", "$1"}, 2), true), []bool{false, true})
 	pairs(texts(c13Seqs([]string{"a", "a\r", "\r", "a\r\r"}, 3), true), []bool{false, true})
+	// a valid U+FFFD where the other text has a byte that is not valid UTF-8 (both decode to the same runes)
+	pairs(texts(c13Seqs([]string{"caf\ufffd x", "caf\xe9 x", "caf\xff x", "b"}, 2), true), []bool{false, true})
 	for _, p := range vfLongTexts(c.thorough()) {
 		for _, col := range []bool{false, true} {
 			emit(c13Case{S: p[0], R: p[1], Color: col})
